@@ -788,6 +788,7 @@ func checkC01(w *World, r *Report) {
 		return rule == "C14.all-elements" || rule == "C14.entry"
 	})
 	applyArgsRule(w, r, e, "C01.apply-args")
+	dispatchRules(m, r, "C01")
 	r.rule("C01.no-mutation", "evaluation never writes into a form or into a value it was given: the evaluator, the binder and the builtins write only into storage allocated in the same activation, and storage handed to a call inside a loop is not written again on the next iteration (a literal evaluated twice, or the rest list of an earlier call, would otherwise change; shared with C02.write)")
 	nmu := ruleContainerWrites(w, r, e, "C01.no-mutation", func(fn *ssa.Function) bool { return runtimePkg(fnPkgPath(fn)) }, false)
 	r.floor("C01.no-mutation", "container write sites in the library", nmu, 40)
@@ -2541,4 +2542,110 @@ func strCmp(v ssa.Value) (ssa.Value, string, bool, bool) {
 		return bo.X, constant.StringVal(c.Value), bo.Op == token.EQL, true
 	}
 	return nil, "", false, false
+}
+
+// dispatchRules: which special form a lap of the evaluator's loop takes is decided by the head of the form of
+// that lap, and by its name alone.
+func dispatchRules(m *evalModel, r *Report, pfx string) {
+	// the special form a lap of the loop takes is decided by the form of that lap alone
+	r.rule(pfx+".dispatch-fresh", "the name the special-form dispatch compares is computed from the current form on every lap of the evaluator's loop: it is no value carried over from the lap before (a call whose operator is no symbol would be taken for the special form evaluated last)")
+	{
+		carried := false
+		seen := map[ssa.Value]bool{}
+		var walk func(v ssa.Value, depth int)
+		walk = func(v ssa.Value, depth int) {
+			if v == nil || seen[v] || depth > 8 || carried {
+				return
+			}
+			seen[v] = true
+			if phi, ok := v.(*ssa.Phi); ok {
+				if m.header != nil && phi.Block() == m.header {
+					carried = true
+					return
+				}
+				for _, l := range naturalLoops(m.EVAL) {
+					if l.header == phi.Block() && phi.Block().Dominates(m.header) {
+						carried = true
+						return
+					}
+				}
+				for _, ed := range phi.Edges {
+					walk(ed, depth+1)
+				}
+			}
+		}
+		walk(m.dispatch, 0)
+		pos := m.EVAL.Pos()
+		if m.dispatch != nil && m.dispatch.Pos().IsValid() {
+			pos = m.dispatch.Pos()
+		}
+		r.check(!carried, pfx+".dispatch-fresh", m.EVAL, "name compared by the special-form dispatch", pos, "computed from the current form on every lap", "the name the dispatch compares can be the one of the lap before (a variable of the loop that is not set again on every path): a call form whose operator is not a symbol, met in tail position, is evaluated as the special form handled last")
+	}
+	// ... and by nothing but its name: special forms are no bindings, a scope cannot shadow them
+	r.rule(pfx+".dispatch-by-name", "whether the head symbol of a form selects a special form does not depend on the scope: no test that decides which name the dispatch compares calls a method of the scope or is handed the scope (quote, do, if … written by a macro expansion or by quasiquote mean the special form wherever the form is evaluated)")
+	if phi, ok := m.dispatch.(*ssa.Phi); ok && phi.Block().Idom() != nil && m.envParam != nil {
+		P, D := phi.Block(), phi.Block().Idom()
+		region := map[*ssa.BasicBlock]bool{D: true}
+		stack := []*ssa.BasicBlock{D}
+		for len(stack) > 0 {
+			b := stack[len(stack)-1]
+			stack = stack[:len(stack)-1]
+			for _, s := range b.Succs {
+				if s != P && !region[s] && D.Dominates(s) {
+					region[s] = true
+					stack = append(stack, s)
+				}
+			}
+		}
+		envT := m.envParam.Type()
+		n := 0
+		for b := range region {
+			iff := blockIf(b)
+			if iff == nil || !blockReaches(b, P, false) {
+				continue
+			}
+			n++
+			asksScope := false
+			seen := map[ssa.Value]bool{}
+			var walk func(v ssa.Value, depth int)
+			walk = func(v ssa.Value, depth int) {
+				if v == nil || seen[v] || depth > 6 || asksScope {
+					return
+				}
+				seen[v] = true
+				if c, ok := v.(*ssa.Call); ok {
+					if c.Call.IsInvoke() && types.Identical(c.Call.Value.Type(), envT) {
+						asksScope = true
+						return
+					}
+					for _, a := range c.Call.Args {
+						if types.Identical(a.Type(), envT) {
+							asksScope = true
+							return
+						}
+					}
+				}
+				// only what the test itself is made of: comparisons, negations and the calls whose answers they compare
+				// (how the form at hand was obtained - the expansion before the dispatch - is no part of the test)
+				switch x := v.(type) {
+				case *ssa.BinOp:
+					walk(x.X, depth+1)
+					walk(x.Y, depth+1)
+				case *ssa.UnOp:
+					if x.Op == token.NOT {
+						walk(x.X, depth+1)
+					}
+				case *ssa.Extract:
+					walk(x.Tuple, depth+1)
+				case *ssa.MakeInterface:
+					walk(x.X, depth+1)
+				case *ssa.ChangeInterface:
+					walk(x.X, depth+1)
+				}
+			}
+			walk(iff.Cond, 0)
+			r.check(!asksScope, pfx+".dispatch-by-name", m.EVAL, "test that decides the name the dispatch compares", iff.Cond.Pos(), "asks nothing of the scope", "the name the special-form dispatch compares depends on a question put to the scope (is the head symbol bound?): in a scope that binds a name like quote, do or if, forms written by quasiquote or by a macro expansion are no longer the special forms they spell")
+		}
+		r.floor(pfx+".dispatch-by-name", "tests that decide the dispatch name", n, 1)
+	}
 }
